@@ -108,6 +108,30 @@ def inputs(ctx):
                      op + b")\x81.", b"]" + op + b"a.", op + b"}b."):
             for framing in ("none", "proto2", "proto4"):
                 yield f"ext-opcode-{framing}", gen.frame(body, framing), True
+    # container files (what model checkpoints are): tar / zip archives whose member names point elsewhere and whose
+    # members are pickles - handing one to an entry point that expects a pickle is a refusal, not an unpacking job
+    import tarfile
+    import zipfile
+    payload = b"cos\nsystem\n(S'echo vp_marker_10'\ntR."
+    for style in ("tar", "tar-legacy-torch", "zip", "zip-torch"):
+        buf = io.BytesIO()
+        members = [("pickle", payload), ("../vp_canary_escape.txt", b"escaped"), ("/tmp/vp_canary_abs_escape.txt", b"escaped"),
+                   ("storages", b""), ("archive/data.pkl", payload), ("archive/version", b"3\n"), ("vp_canary_0.py", b"x = 1\n")]
+        if style.startswith("tar"):
+            with tarfile.open(fileobj=buf, mode="w:") as t:
+                for name, body in members:
+                    if style == "tar-legacy-torch" and name.startswith(("archive", "/")):
+                        continue
+                    ti = tarfile.TarInfo(name)
+                    ti.size = len(body)
+                    t.addfile(ti, io.BytesIO(body))
+        else:
+            with zipfile.ZipFile(buf, "w") as z:
+                for name, body in members:
+                    if style == "zip-torch" and not name.startswith("archive"):
+                        continue
+                    z.writestr(name, body)
+        yield f"container-{style}", buf.getvalue(), True
     # names that are str.format / %-templates: a report built by formatting text that already contains the
     # pickle's names resolves the replacement fields against live objects (attribute and item look-ups)
     roots = ["0", "trigger", "severity", "self", "node", "shortened", "message", "result", "context", "pickled",
